@@ -141,3 +141,16 @@ package keeper
 //@ func (Keeper).ClosePosition
 //@ decabstract
 //@ ensures C10/owner-closes-own-position: err == nil ==> unbech32(result0.Address) == unbech32(msg.Creator) && result0.Id == msg.Id
+
+// ---- C02: transfers between a position and the amm pool move reserves, never shares ------------------
+//@ func (Keeper).SendToAmmPool
+//@ forall p Int
+//@ callers-assumed the perpetual flows thread the amm pool object they read at the start of the transaction; no join or exit happens in between
+//@ requires ammPoolHas(ctx, ammPool.PoolId) && ammPool.TotalShares.Amount == ammPoolRow(ctx, ammPool.PoolId).TotalShares.Amount && poolWF(ammPool)
+//@ ensures C02/total-shares-track-supply: err == nil ==> shareGap(ctx, p) == old(shareGap(ctx, p))
+
+//@ func (Keeper).SendFromAmmPool
+//@ forall p Int
+//@ callers-assumed the perpetual flows thread the amm pool object they read at the start of the transaction; no join or exit happens in between
+//@ requires ammPoolHas(ctx, ammPool.PoolId) && ammPool.TotalShares.Amount == ammPoolRow(ctx, ammPool.PoolId).TotalShares.Amount && poolWF(ammPool)
+//@ ensures C02/total-shares-track-supply: err == nil ==> shareGap(ctx, p) == old(shareGap(ctx, p))
